@@ -73,6 +73,11 @@ def menu(skel):
         add("staterror", {"name": f"st_{c['name']}", "type": "staterror",
                           "data": [round(0.05 * x + 0.2 * b + 0.1 * si, 4) for b, x in enumerate(nom)]})
         add("shapefactor", {"name": f"sf_{c['name']}", "type": "shapefactor", "data": None})
+        # an empty nominal bin (only where another, earlier-listed sample keeps the bin populated); bin-wise modifier data stay non-zero
+        if si >= 1:
+            add("zerobin", {"zerobin": 0})
+            add("staterror0nom", {"name": f"st_{c['name']}", "type": "staterror", "zerobin": 0,
+                                  "data": [round(0.05 * x + 0.2 * b + 0.1 * si, 4) for b, x in enumerate(nom)]})
         if skel == "B4":
             add("shapefactor:X", {"name": "sfX", "type": "shapefactor", "data": None})
     return tuple(out)
@@ -86,10 +91,19 @@ def build(skel, combo):
     for i in combo:
         label, ci, si, mod, params = m[i]
         labels.append(label)
-        mods = sp["channels"][ci]["samples"][si]["modifiers"]
+        smp = sp["channels"][ci]["samples"][si]
+        mods = smp["modifiers"]
+        mod = copy.deepcopy(mod)
+        if "zerobin" in mod:
+            b = mod.pop("zerobin")
+            if smp["data"][b] == 0.0:
+                return None
+            smp["data"][b] = 0.0
+            if not mod:
+                continue
         if any(x["type"] == mod["type"] and x["name"] == mod["name"] for x in mods):
             return None
-        mods.append(copy.deepcopy(mod))
+        mods.append(mod)
         for p in params:
             if not any(q["name"] == p["name"] for q in sp["parameters"]):
                 sp["parameters"].append(copy.deepcopy(p))
